@@ -845,6 +845,15 @@ func (g *vfGW) apply(evFull string) {
 				}
 			})
 		}
+	case "letone":
+		// letone:P -- a congested link: exactly one more write to P gets through the closed gate
+		f := g.fake(arg(1))
+		f.mu.Lock()
+		st := f.out
+		f.mu.Unlock()
+		if st != nil {
+			st.in.letOne()
+		}
 	case "lpubgo":
 		// lpubgo:T:LABEL -- Publish from its own goroutine: with Extra["park_local"] its validators can be parked
 		// by the explorer like those of a remote copy (released by vrel), so a local publication can be in progress
